@@ -284,7 +284,9 @@ fn scenario(ctx: &Ctx, out: &mut Outcome, rng: &mut Rng, idx: u64) {
     let faults2 = faults.clone();
     // ... and in a quarter of the scenarios one aimed at a catalog write of the compactor (mostly "applied, but
     // reported as failed": the publication step's lost response)
-    let aimed: Vec<crate::sim::FaultMatch> = if rng.chance(1, 4) {
+    // (every other scenario when retention can act at all - one-day retention - so that a retention delete whose
+    //  catalog write is lost or answered late is met tens of times per quick run and not three to six times)
+    let aimed: Vec<crate::sim::FaultMatch> = if rng.chance(if retention_days == 1 { 2 } else { 1 }, 4) {
         vec![crate::sim::FaultMatch {
             actor_prefix: "comp".into(),
             op: "PUT".into(),
@@ -646,6 +648,10 @@ fn scenario(ctx: &Ctx, out: &mut Outcome, rng: &mut Rng, idx: u64) {
         }
     }
     out.count("retention_removals_judged", retention_removals);
+    out.count(
+        "retention_deletes_reported_failed",
+        res.events.iter().filter(|e| !e.call && e.op == "META:delete_chunk" && e.actor.starts_with("comp") && !e.result.starts_with("ok")).count() as u64,
+    );
     // ---- P1: persisted deletions carried out after restart
     // (only in histories without an injected storage error: the property's quantifier has none, and a DELETE or a
     //  load of the pending list that the store refuses is not "carried out" by construction; the safety rules
